@@ -218,8 +218,20 @@ def run_split(ctx, case):
         Parent.__spec_class__  # (a lazily bootstrapped class has no helpers before its first use)
         for n in names_p:
             getattr(Parent, n)
+    two_bases = case.get("split_mode") == "bases"
+    if two_bases:
+        # the second part lives on a second, unrelated spec class; the class under test inherits from both and adds nothing
+        names_q, err_q = expected_names(ca)
+        if err_q is not False:
+            ctx.count("split:abstained")
+            ctx.case(case, False)
+            return
+        Parent2 = spec_class(bootstrap=case["eager"])(mk("Pq", (), ca))
     try:
-        Child = spec_class(bootstrap=case["eager"])(mk("K", (Parent,), ca))
+        if two_bases:
+            Child = spec_class(bootstrap=case["eager"])(type("K", (Parent, Parent2), {"__module__": "vf.generated"}))
+        else:
+            Child = spec_class(bootstrap=case["eager"])(mk("K", (Parent,), ca))
         Child.__spec_class__
         cinst = Child()
     except RuntimeError as e:
@@ -263,6 +275,8 @@ def run_split(ctx, case):
         return
     # the parent keeps its own helper names and behaviour, whatever the child had to rename
     if not exercise(Parent, Parent(), names_p, pa, "parent"):
+        return
+    if two_bases and not exercise(Parent2, Parent2(), names_q, ca, "second parent"):
         return
     extra = sorted(n for n in dir(Parent) if n.split("_")[0] in ("with", "update", "transform", "reset", "without") and n not in names_p and not n.startswith("_"))
     if extra:
@@ -459,6 +473,7 @@ def enum_cases():
         for k in range(1, len(attrs)):
             for eager, touch in itertools.product([True, False], [False, True]):
                 yield base_case(attrs, split=k, eager=eager, touch_parent_first=touch)
+                yield base_case(attrs, split=k, eager=eager, touch_parent_first=touch, split_mode="bases")
         names, err = expected_names(attrs)
         if err is True or not names:
             continue
@@ -479,6 +494,8 @@ def case_strategy(draw):
                   defaults=src.chance(3, 4))
     if len(attrs) > 1 and src.chance(1, 6):
         c.update(select="annotations", split=1 + src.choice(len(attrs) - 1), touch_parent_first=src.chance(1, 2))
+        if src.chance(1, 2):
+            c["split_mode"] = "bases"
         return c
     c["switches_off"] = [s for s in ("init", "repr", "eq") if src.chance(1, 6)]
     c["user_dunders"] = [d for d in ("__init__", "__repr__", "__eq__", "__new__") if src.chance(1, 5)]
